@@ -19,7 +19,8 @@ use std::collections::BTreeMap;
 use syn::visit_mut::{self, VisitMut};
 use syn::{parse_quote, Expr, Item, Stmt};
 
-pub fn norm(s: &str) -> String { s.chars().filter(|c| !c.is_whitespace()).collect() }
+// whitespace-free text; a trailing comma before `)` (rustfmt's multi-line call layout) is not significant
+pub fn norm(s: &str) -> String { let t: String = s.chars().filter(|c| !c.is_whitespace()).collect(); t.replace(",)", ")") }
 
 // ---------------------------------------------------------------- markers
 struct HintInst { id: usize, template: String, args: Vec<String>, kind: String }
@@ -308,6 +309,7 @@ impl<'a> VisitMut for Marker<'a> {
                 for (i, mut args, recv) in found_a { let t = self.spec.after_call[i].1.clone(); if let Some(r) = recv { args.push(format!("$recv={}", r)); } out.push(self.marker(&t, args, "after-call")); }
             }
             if let Some((x, init)) = letk {
+                if std::env::var("VX_DEBUG").is_ok() { eprintln!("vx: let {} = {}", x, init); for (p, _) in &self.spec.after_let { eprintln!("    pat {}", p); } }
                 for (p, t) in self.spec.after_let.clone() {
                     if let Some(binds) = let_pat_match(&p, &init) {
                         let mut args = vec![format!("$x={}", x)];
